@@ -48,7 +48,7 @@ const (
 	nGenShards  = 32
 	maxRestarts = 12
 	progSize    = 2 << 20
-	heapGuard   = 600 << 20
+	heapGuard   = 900 << 20
 )
 
 func main() {
@@ -230,7 +230,7 @@ func supervise(r *mon.Run, mode string, shard int, to time.Duration) {
 			return
 		}
 		logHT := mon.HeadTail(res.LogFile, 3500)
-		site := mon.FatalSite(logHT)
+		site := deathSite(res.LogFile)
 		typ := ""
 		if c != nil {
 			typ = c.Type
@@ -252,6 +252,41 @@ func supervise(r *mon.Run, mode string, shard int, to time.Duration) {
 		quarMu.Unlock()
 		start = flushed
 	}
+}
+
+// deathSite classifies a dead child: kind of death (mon.FatalSite) + the
+// go-rangers entry point the main goroutine was in (outermost repository frame
+// of goroutine 1 -- stable, whereas the innermost frame of a runaway loop is
+// wherever the memory guard happened to catch it).
+func deathSite(logFile string) string {
+	b, _ := ioutil.ReadFile(logFile)
+	log := string(b)
+	kind := mon.FatalSite(log)
+	if i := strings.Index(kind, "@"); i >= 0 {
+		kind = kind[:i]
+	}
+	i := strings.Index(log, "\ngoroutine 1 ")
+	if i < 0 {
+		return kind
+	}
+	block := log[i+1:]
+	if j := strings.Index(block, "\n\n"); j >= 0 {
+		block = block[:j]
+	}
+	entry := ""
+	const pfx = "com.tuntun.rangers/node/src/"
+	for _, l := range strings.Split(block, "\n") {
+		if strings.HasPrefix(l, pfx) {
+			if k := strings.LastIndex(l, "("); k > 0 {
+				l = l[:k]
+			}
+			entry = strings.TrimPrefix(l, pfx)
+		}
+	}
+	if entry == "" {
+		return kind
+	}
+	return kind + "@" + entry
 }
 
 var (
@@ -330,7 +365,7 @@ func unitDone(r *mon.Run) {
 
 func child(r *mon.Run, args []string) {
 	// the live heap of a child is small; collect less often than the default
-	debug.SetGCPercent(200)
+	debug.SetGCPercent(400)
 	// memory guard: a decoder that trusts a declared length (or loops without consuming input) must
 	// kill this child -- reported by the parent with the case in flight -- not the machine. A watchdog
 	// goroutine ends the process with all stacks once the heap exceeds what any legitimate decode of
@@ -689,7 +724,7 @@ func replay(r *mon.Run, path string) {
 			r.Merge(res.Partial)
 		}
 		logHT := mon.HeadTail(res.LogFile, 3500)
-		site := mon.FatalSite(logHT)
+		site := deathSite(res.LogFile)
 		r.Violation("C08:fatal:type="+c.Type+":"+site, fmt.Sprintf("child process died with exit %d (%s) while executing mode=%s type=%s input=%x", res.Exit, site, c.Mode, c.Type, clip(c.Input)),
 			map[string]interface{}{"case": c, "log": logHT})
 	} else {
